@@ -184,8 +184,6 @@ CLAIMED = {
 
 NOT_APPLICABLE = {
  "C17": "stream integrity across write/enable/flush/fault histories is a property of runtime values and orders; no structural clause that is both necessary and non-brittle beyond what C08/C10/C16/C18/C22 check",
- "C23": "RFC 9112 request framing of a hand-written incremental parser under every segmentation needs the parser executed or modelled on inputs; no shape rule implies an RFC clause",
- "C24": "RFC 9112 response framing under every segmentation: same reason as C23",
  "C27": "exactly-once completion under every fault point depends on run-time flag correlations (USER_OWNED/DEFER_FREE/NEEDS_FREE, queue membership) that a path-insensitive rule cannot track without false alarms",
  "C28": "URI parse/join round trip is string-grammar equivalence over all inputs (runtime values)",
  "C39": "equality with a reference parser of resolv.conf/hosts syntax over all file contents; no bounded-buffer idiom to anchor a guard rule",
@@ -407,4 +405,25 @@ CLAIMED.update({
                  "Declined: completion counts under timeouts, retransmission, TCP fallback and nameserver failover over time.",
          "note": STD_NOTE,
          "technique": "static analysis: evaluation of the id picker (K6), who-may-write with interprocedural value provenance (K2/K8), must-precede / must-follow pairing on CFG paths (K3/K5), dominance ordering of teardown loops (K3)"},
+})
+
+CLAIMED.update({
+ "C23": {"level": "other",
+         "text": "Only the body-framing decision of the request parser: evhttp_get_body / evhttp_get_body_length (and the helper that finds the final transfer coding, evaluated on abstract "
+                 "strings) are evaluated from their extracted CFGs on 294 combinations of Transfer-Encoding (absent, chunked, Chunked, 'gzip, chunked', gzip, 'chunked, gzip', identity) x "
+                 "Content-Length (absent, digits, 0, '+5', empty, '5x', '-5') x Connection x method-with-body, and the outcome (no body / chunked / length n / rejected) must equal RFC 9112 "
+                 "6.1/6.3: the final coding decides, a request whose final coding is not chunked is rejected (never framed by guessing from Content-Length), Content-Length is 1*DIGIT. "
+                 "Found and repaired two genuine defects (request smuggling through 'Transfer-Encoding: gzip[, chunked]'; signed Content-Length accepted), replayed against the real "
+                 "server. Declined — the bulk of C23: that request line, header fields, chunk syntax and trailers are parsed exactly per the RFC grammar under every segmentation; "
+                 "duplicate/conflicting Content-Length fields; obs-fold; whitespace before the colon.",
+         "note": STD_NOTE + ORDER_NOTE + " Abstract string pointers (engine/prog.py PStr) model constant header values; evhttp_find_header is assumed to return the trimmed value of the first matching field.",
+         "technique": "static analysis: evaluation of the extracted framing code (typed integers + abstract constant strings) over a finite header domain against the RFC 9112 decision table (K6)"},
+ "C24": {"level": "other",
+         "text": "Only the body-framing decision of the response reader: evhttp_response_needs_body, evhttp_get_body and evhttp_get_body_length evaluated on 1176 combinations of status class "
+                 "(200, 404, 204, 304, 100, 103, 199, reply to HEAD) x Transfer-Encoding x Content-Length x Connection against RFC 9112 6.3 (no body for HEAD/1xx/204/304; final coding "
+                 "chunked -> chunked; other final coding -> until close; Content-Length 1*DIGIT; neither -> until close). Found and repaired the response side of the two C23 defects. One "
+                 "known finding is recorded, not repaired: without length and coding and with a Connection field other than close libevent assumes an empty body (deliberate heuristic). "
+                 "Declined — the bulk of C24: grammar conformance under every segmentation, 1xx other than 100 being interim, bytes after a complete response going to the next request.",
+         "note": STD_NOTE + ORDER_NOTE,
+         "technique": "static analysis: evaluation of the extracted framing code (typed integers + abstract constant strings) over a finite status/header domain against the RFC 9112 decision table (K6)"},
 })
